@@ -495,7 +495,8 @@ func userForestCase(c *core.Ctx, i int, r *rand.Rand) {
 	}
 }
 
-func brokenDictCase(c *core.Ctx, i int, r *rand.Rand) {
+// brokenForest generates a dictionary with one injected inconsistency.
+func brokenForest(i int, r *rand.Rand) (forest, string, bool) {
 	kinds := []string{"dangling-attr", "dangling-extends", "cycle1", "cycle2", "cycle3", "cycle4", "cycle5", "unnamed-chord", "unnamed-attr", "tail1", "tail2", "tail3"}
 	kind := kinds[i%len(kinds)]
 	used := (i/len(kinds))%2 == 0
@@ -543,6 +544,11 @@ func brokenDictCase(c *core.Ctx, i int, r *rand.Rand) {
 	// insert the broken chord at a random position
 	pos := r.Intn(len(f.chords) + 1)
 	f.chords = append(f.chords[:pos], append([]userChord{broken}, f.chords[pos:]...)...)
+	return f, kind, used
+}
+
+func brokenDictCase(c *core.Ctx, i int, r *rand.Rand) {
+	f, kind, used := brokenForest(i, r)
 	args := writeDictFiles(c, r, f)
 	desc := map[string]any{"kind": kind, "used": used, "attr_yaml": short(string(attrsYAML(f.attrs)), 1200), "chord_yaml": short(string(chordsYAML(f.chords)), 2500)}
 	sym := "m7"
